@@ -91,7 +91,7 @@ def model_line(c, o):
     if k == "L": out.append(" ".join(binq(y) for r in c["Y"] for y in r))
     if k in ("D", "DW"): out.append(" ".join(map(str, c["labels"])))
     if k == "DW": out.append(" ".join(binq(x) for x in c["w"]))
-    par = []
+    par = []; d_ = c["d"]
     fl = lambda xs: " ".join(binq(Fr(x)) for x in xs)
     if k == "V":
         ss = []
@@ -99,6 +99,9 @@ def model_line(c, o):
             v = fcov(c["rows"])[j][j]; s = fsqrt(v)
             ss.append(s if s is not None else Fr(math.sqrt(float(v))))
         par = [" ".join(binq(s) for s in ss)]
+    elif k in ("L", "D", "DW") and (o is None or not allfinite(o)):
+        K = c.get("K", 1)
+        par = [fl([0.0] * (c["o"] * d_)), fl([0.0] * c["o"])] if k == "L" else [fl([0.0] * (K * d_))]
     elif o is None or not allfinite(o): return None
     elif k == "L": par = [fl(o["mat"]), fl(o["off"])]
     elif k in ("W", "Z"): par = [str(o["rows"]), fl(o["mat"]), fl(o["off"])]
@@ -145,6 +148,12 @@ def fsolve(M, B):
             if i != c and A[i][c] != 0:
                 f = A[i][c]; A[i] = [a - f * b for a, b in zip(A[i], A[c])]
     return [[A[i][n + k] for i in range(n)] for k in range(len(B))]
+def cond_inf(M):
+    """exact infinity-norm condition number of a non-singular matrix (None if singular)"""
+    n = len(M); inv = fsolve(M, [[Fr(int(i == j)) for i in range(n)] for j in range(n)])
+    if inv is None: return None
+    nrm = lambda R: max(sum(abs(x) for x in r) for r in R)
+    return float(nrm(M) * nrm(tr(inv)))
 def is_pd(M):
     n = len(M)
     return all(fdet([r[:k] for r in M[:k]]) > 0 for k in range(1, n + 1))
@@ -186,6 +195,7 @@ def mon_line(c, o):
         # documented refusals only
         if k in ("V", "I", "P") and n < 2: return []
         if k in ("W", "Z") and n < d + 1: return []
+        if k in ("D", "DW") and any(c["labels"].count(cc) == 0 for cc in range(c["K"])): return []   # "LDA can not handle a class without examples"
         if k == "F":
             # the within-class scatter must be positive definite (solve(Sw, Sb, symm_pos_def)): refusing a singular one is fine
             labs = c["labels"]; K = c["K"]; cnt = [labs.count(cc) for cc in range(K)]
@@ -365,6 +375,7 @@ def mon_line(c, o):
         K = c["K"]; lam = fr(c["args"][0]); w = c.get("w", [Fr(1)] * n); labs = c["labels"]
         W = sum(w); Wc = [sum(wi for wi, l in zip(w, labs) if l == cc) for cc in range(K)]
         name = "LDA::train(weighted)" if k == "DW" else "LDA::train"
+        if any(x == 0 for x in Wc): B(name + ":empty-class", "a class without examples is accepted (documented: exception)"); return bad
         if k == "D" and n == K: return []            # no pooled covariance estimate exists (0/0): outside the domain
         mc = [[sum(wi * r[j] for wi, r, l in zip(w, rows, labs) if l == cc) / Wc[cc] for j in range(d)] for cc in range(K)]
         div = W if k == "DW" else n - K
@@ -470,12 +481,15 @@ def compare(c, o, mo):
     if mo.startswith("FAIL") or mo.endswith(" -"): return ["model driver: " + mo]
     md = {}
     for t in mo.split():
-        k, _, v = t.partition("="); md[k] = [unbin(x) for x in v.split(",")] if v else []
+        k, _, v = t.partition("=")
+        md[k] = int(v) if k in ("mrank", "mx") else None if v == "NONE" else [unbin(x) for x in v.split(",")] if v else []
     k = c["kind"]; n, d = c["n"], c["d"]; dis = []
     def D(msg): dis.append(msg)
-    if o is None:
-        if k in ("V", "I") and n < 2: return []
-        return []
+    if o is None or (k in ("L", "D", "DW") and not allfinite(o)):
+        if k == "L" and o is None and md.get("mbeta", 0) is not None: D("as-coded model returns weights, the implementation raised an exception")
+        if k in ("D", "DW") and o is None and md.get("mz", 0) is not None and not (k == "D" and n <= c["K"]):
+            D("as-coded model returns a rule, the implementation raised an exception")
+        return dis
     if k == "S":
         dy = all(rep(x) for x in md["mean"])
         for j in range(d):
@@ -508,6 +522,22 @@ def compare(c, o, mo):
                 g = md["grad"][cc * (d + 1) + j]
                 sc = 2 * sum((abs(sum(float(a) * b for a, b in zip(r + [1], beta))) + abs(float(y[cc]))) * abs(float((r + [1])[j])) for r, y in zip(c["rows"], c["Y"])) + 1
                 if abs(float(g)) > TOL * sc: D("model gradient[%d,%d] = %.3e at the returned weights" % (cc, j, float(g)))
+        if "mx" in md:
+            # C15SolveModel.lrc_train (assembled system as coded + the C02 model of the semi-definite solver)
+            if md["mbeta"] is None: D("as-coded model raises an exception, the implementation returned weights"); return dis
+            ext = [r + [Fr(1)] for r in c["rows"]]
+            Am = [[sum(e[j] * e[l] for e in ext) + (lam if j == l and j < d else 0) for l in range(d + 1)] for j in range(d + 1)]
+            rk = frank(Am); c["_mx"] = md["mx"]
+            cnd = cond_inf(Am) if rk == d + 1 else None
+            if md["mx"] == 1 and md["mrank"] != rk: D("as-coded model (exact run): rank %d, exact rank of the system %d" % (md["mrank"], rk))
+            if md["mx"] == 1 or (cnd is not None and cnd <= 1e6):
+                tol = 1e-9 if md["mx"] == 1 else 1e-11 * max(cnd, 100.0)
+                for cc in range(od):
+                    mb = md["mbeta"][cc * (d + 1):(cc + 1) * (d + 1)]; ib = o["mat"][cc * d:(cc + 1) * d] + [o["off"][cc]]
+                    sc = max([abs(float(x)) for x in mb] + [1.0])
+                    for j in range(d + 1):
+                        if abs(ib[j] - float(mb[j])) > tol * sc:
+                            D("as-coded model (%s): beta[%d,%d] model %r impl %r (rank %d of %d)" % ("exact" if md["mx"] else "double", cc, j, float(mb[j]), ib[j], rk, d + 1)); break
     elif k in ("W", "Z"):
         if not allfinite(o): return []
         tv = fr(c["args"][0]); r = o["rows"]
@@ -573,6 +603,27 @@ def compare(c, o, mo):
         for cc in range(K):
             want = float(md["bpart"][cc]) + math.log(float(pr[cc]))
             if not close(o["bias"][cc], want, 1e-9, abs(float(md["bpart"][cc])) + 1): D("bias[%d] model %r impl %r" % (cc, want, o["bias"][cc]))
+        if "zmeans" in md:
+            # C15SolveModel.ldac_train / ldaw_train: statistics as coded (exact), then the C02 model of the semi-definite solver
+            sq_exact = all(fsqrt(x) is not None and rep(fsqrt(x)) for x in md["wmet"])
+            if md["zmeans"] != [x for r in mc for x in r]: D("as-coded class means differ from the direct evaluation")
+            if md["mprior"] != pr: D("as-coded priors differ from the direct evaluation")
+            flatC = [x for r in Cp for x in r]
+            if sq_exact:
+                if md["zcov"] != flatC: D("as-coded pooled covariance differs from the direct evaluation")
+            elif any(abs(float(a) - float(b)) > 1e-12 * max(abs(float(b)), 1.0) for a, b in zip(md["zcov"], flatC)): D("as-coded pooled covariance differs from the direct evaluation (rounded sqrt of the weights)")
+            if md.get("mz", 0) is None: D("as-coded model raises an exception, the implementation returned a rule"); return dis
+            rk = frank(Cp); c["_mx"] = md["mx"]
+            cnd = cond_inf(Cp) if rk == d else None
+            if md["mx"] == 1 and md["mrank"] != rk: D("as-coded model (exact run): rank %d, exact rank of the pooled covariance %d" % (md["mrank"], rk))
+            if md["mx"] == 1 or (cnd is not None and cnd <= 1e6):
+                tol = 1e-9 if md["mx"] == 1 else 1e-11 * max(cnd, 100.0)
+                sc = max([abs(float(x)) for x in md["mz"]] + [1.0])
+                for t, (x, y) in enumerate(zip(o["mat"], md["mz"])):
+                    if abs(x - float(y)) > tol * sc: D("as-coded model (%s): z[%d] model %r impl %r (rank %d of %d)" % ("exact" if md["mx"] else "double", t, float(y), x, rk, d)); break
+                for cc in range(K):
+                    want = float(md["mbp"][cc]) + math.log(float(pr[cc])); bs = sum(abs(float(a) * b) for a, b in zip(mc[cc], o["mat"][cc * d:(cc + 1) * d])) + 1
+                    if abs(o["bias"][cc] - want) > max(tol * sc * max(abs(float(a)) for a in mc[cc] + [1]) * d, 1e-9 * bs): D("as-coded model: bias[%d] model %r impl %r" % (cc, want, o["bias"][cc])); break
     return dis
 
 # ------------------------------------------------------------------------------------------------ generators
@@ -653,6 +704,35 @@ def gen_group(rng, kind, big=False):
     elif kind == "PS":      # PCA, more features than points, all min(n,d) components requested
         d = rng.choice([3, 4, 5]); n = rng.choice([2, 3]); R = gen_rows(rng, n, d, "int")
         G.append(("P 0 0 %d %d | %d | %s" % (n, d, n, flat(R)), "batch"))
+    elif kind == "PX":      # PCA: the shapes around the branch switch, rank-deficient / constant / duplicated data
+        d = rng.choice([2, 3, 4]); n = max(2, rng.choice([d - 1, d, d + 1, d + 1])); wh = "0"
+        R = gen_rows(rng, n, d, rng.choice(["int", "const", "dup", "duprows", "lowrank"]))
+        m = rng.choice([0, 1, min(n, d)])
+        for s in partitions(rng, n, 1): G.append(("P %s %d %d %d | %s | %s" % (wh, m, n, d, " ".join(map(str, s)), flat(R)), "batch"))
+    elif kind == "LX":      # LinearRegression, lambda = 0, exactly representable run of the solver (full rank or singular X^T X)
+        n = rng.choice([4, 4, 16]); d = rng.choice([1, 2, 3]); r = rng.choice([d, d, max(d - 1, 0)]); o = rng.choice([1, 2])
+        R = design(rng, n, d, r)
+        if rng.random() < 0.3: j = rng.randrange(d); cst = Fr(rng.choice([1, 2, 4])); R = [[cst if l == j else x for l, x in enumerate(row)] for row in R]   # constant feature = multiple of the bias column
+        Y = [[Fr(rng.randint(-4, 4)) for _ in range(o)] for _ in range(n)]
+        for s in partitions(rng, n, 1): G.append(("L 0 %d %d %d | %s | %s | %s" % (n, d, o, " ".join(map(str, s)), flat(R), flat(Y)), "batch"))
+    elif kind == "DWX":     # weighted LDA, lambda = 0, pooled covariance T T^T exactly (weights: one square per class)
+        K = rng.choice([2, 3]); d = rng.choice([1, 2, 3]); r = rng.choice([d, d, max(d - 1, 0)]); R = []; labs = []; w = []
+        T = None; st = rng.getstate()
+        for cc in range(K):
+            rng.setstate(st); blk = design(rng, 4, d, r)       # the same design for every class
+            mu = [Fr(rng.randint(-3, 3)) for _ in range(d)] if cc else [Fr(0)] * d
+            wc = Fr(rng.choice([1, 4, Fr(1, 4)]))
+            for row in blk: R.append([x + m_ for x, m_ in zip(row, mu)]); labs.append(cc); w.append(wc)
+        n = len(R)
+        for s in partitions(rng, n, 1): G.append(("DW 0 %d %d %d | %s | %s | %s | %s" % (n, d, K, " ".join(map(str, s)), flat(R), " ".join(map(str, labs)), " ".join(tok(x) for x in w)), "batch"))
+    elif kind == "DE":      # LDA: a class without examples (exception), singleton classes
+        K = 3; d = rng.choice([1, 2]); n = rng.choice([4, 5, 6]); R = gen_rows(rng, n, d, "int")
+        if rng.random() < 0.5: labs = [rng.choice([0, 2]) for _ in range(n)]; labs[0] = 2; labs[1] = 0        # class 1 empty
+        else: labs = [0, 1] + [2] * (n - 2)                                                               # two singleton classes
+        for kd in ("D", "DW"):
+            G.append(("%s 1/2 %d %d %d | %d | %s | %s%s" % (kd, n, d, K, n, flat(R), " ".join(map(str, labs)), " | " + " ".join(["1"] * n) if kd == "DW" else ""), "batch"))
+            G = G[-1:] if rng.random() < 0.5 else G[:1]
+            break
     elif kind in ("D", "DW", "F"):
         K = rng.choice([2, 2, 3]); n = max(n, K + 1)
         if kind == "F": n = max(n, d + K + 2); st = rng.choice(["int", "int", "half"])
@@ -678,7 +758,28 @@ def gen_group(rng, kind, big=False):
                         G.append(("DW %s %d %d %d | %d | %s | %s | %s" % (lam, n, d, K, n, flat(R), " ".join(map(str, labs)), " ".join(tok(x * f) for x in w)), "scale%d" % f))
     return G
 
-MIX = [("S", 3), ("V", 3), ("I", 3), ("L", 4), ("W", 3), ("Z", 2), ("P", 4), ("D", 3), ("DW", 3), ("F", 2), ("ZR", 0.15), ("PS", 0.15)]
+# ---- exactly representable runs of the semi-definite solver: X = H T^T with H the zero-sum columns of a Hadamard matrix
+# (H^T H = n I) and T lower triangular with diagonal 2^k and column-wise dominance, so that the pivoted Cholesky factorisation
+# of X^T X / n = T T^T keeps the order, takes roots of squares of powers of two only and stops at exact zeros for rank r < d
+def hadamard(n):
+    H = [[1]]
+    while len(H) < n: H = [r + r for r in H] + [r + [-x for x in r] for r in H]
+    return H
+def gen_T(rng, d, r):
+    for _ in range(200):
+        dg = sorted([rng.choice([4, 2, 1, Fr(1, 2)]) for _ in range(r)], reverse=True)
+        T = [[Fr(0)] * d for _ in range(d)]
+        for i in range(d):
+            for k in range(min(i, r)): T[i][k] = Fr(rng.choice([0, 0, 1, -1, Fr(1, 2), -Fr(1, 2), 2]))
+            if i < r: T[i][i] = Fr(dg[i])
+        if all(sum(T[i][k] ** 2 for k in range(cc, r)) <= T[cc][cc] ** 2 for cc in range(r) for i in range(cc + 1, d)): return T
+    return [[Fr(4 >> i if i < r and i == k else 0) for k in range(d)] for i in range(d)]
+def design(rng, n, d, r):
+    H = hadamard(n); cols = rng.sample(range(1, n), d); T = gen_T(rng, d, r)
+    return [[sum(H[i][cols[k]] * T[j][k] for k in range(d)) for j in range(d)] for i in range(n)]
+
+MIX = [("S", 3), ("V", 3), ("I", 3), ("L", 4), ("W", 3), ("Z", 2), ("P", 4), ("D", 3), ("DW", 3), ("F", 2), ("ZR", 0.15), ("PS", 0.15),
+       ("PX", 0.6), ("LX", 0.8), ("DWX", 0.8), ("DE", 0.3)]
 
 # replay / corpus files: one line per group member, "#rel <relation>" comment lines give the relation of the next line
 def group_text(G): return "".join(("#rel %s\n" % r if r != "batch" else "") + l + "\n" for l, r in G)
